@@ -49,6 +49,11 @@ def c01(tier):
     env = {"max_nodes": sizes(tier, 1500, 6000)}
     run.add_mc(F.curated() + F.random_family(3000 + s, sizes(tier, 60, 600), nmax=4), ["C01"])
     run.add_jobs(jobs_for(defs, env, s, ("yaql", "jinja"), tok="visit"))
+    # pause / early resume while several actions are in flight; providers that acknowledge (`requested`, `delayed`)
+    # before the action runs
+    run.add_jobs(jobs_for(F.curated(), {"pause": 1, "resume_early": True, "max_nodes": sizes(tier, 1500, 6000)}, s))
+    run.add_jobs(jobs_for(F.curated() + F.curated_delay() + F.curated_items()[:6],
+                          {"delayed": "all", "max_nodes": sizes(tier, 1500, 6000)}, s, tok="visit"))
     return run.finish("model_checking",
                       "every (definition, outcome assignment, report order) explored by DFS on the real conductor; "
                       "non-trivial = tree with more than 4 steps; distinct by definition+environment",
@@ -255,8 +260,17 @@ def c05(tier):
     run.add_jobs(jobs_for(defs, {"pause": 1, "cancel": 1, "sample": sizes(tier, 2, 3), "max_nodes": sizes(tier, 400, 1500)},
                           s, ("yaql", "jinja")))
     gs, errors = G.persist_groups(run.results, sizes(tier, 4, 10), random.Random(s))
-    run.extra["persist_job_errors"] = errors
-    run.add_groups(gs)
+    # shapes in which an execution record and a staging entry coexist for one task (retry staged, with-items running,
+    # join: 1 target reached twice), lazy provider (the staged retry / the offered task waits while siblings report):
+    # every history, restored after every call and at sampled points
+    n0 = len(run.results)
+    focus = [d for d in F.curated_retry() + F.curated_items() + F.curated()
+             if d["name"] in ("retry_join1", "retry_split", "retry_cmd", "items_join1_target", "items_join1_then_fail",
+                              "items_join1_late_pub", "join1_two_roots", "join_partial")]
+    run.add_jobs(jobs_for(focus, {"lazy": True, "max_nodes": sizes(tier, 1500, 6000)}, s))
+    gs2, errors2 = G.persist_groups(run.results[n0:], sizes(tier, 1000, 5000), random.Random(s + 1), subsets=0, lean=True)
+    run.extra["persist_job_errors"] = errors + errors2
+    run.add_groups(gs + gs2)
     return run.finish("model_checking",
                       "for sampled complete histories: live run vs run restored (deserialize(serialize())) after "
                       "every call / after random subsets of calls / after one call; compared step by step",
@@ -582,7 +596,7 @@ def replay(prop, path):
         print("no %s clause fails on this replay" % prop)
         return 0
     r = X.run_schedule(rp["def"], rp["schedule"], lang=rp.get("lang", "yaql"), tok=rp.get("tok", "task"),
-                       lazy=bool(rp.get("env", {}).get("lazy")), delayed=bool(rp.get("env", {}).get("delayed")))
+                       lazy=bool(rp.get("env", {}).get("lazy")), delayed=rp.get("env", {}).get("delayed"))
     tree = X.Tree(rp["def"])
     tree.add_steps(0, r.steps, None)
     run = P.Run(prop, "quick", [prop + "_"])
